@@ -1,30 +1,30 @@
 """C08 Type sizes, alignments and layouts equal the psABI (DESIGN.md §3 C08)."""
 import itertools, json, os, subprocess
-from ..interp import Interp, Obj, Sym, Term, Lin, View, Cell, vkey, is_opaque, _Ref, _ValPlace
+from ..interp import Interp, Obj, Sym, View, vkey, _Ref, _ValPlace
 from ..build import AnalysisBroken
-from ..lib_c08 import (Fn, Summary, select, Uninterpretable, StepInterp, int_locals_written_in,
-                       find_member_loop, show_key)
+from ..lib_c08 import Fn, Summary, select, Uninterpretable, StepInterp, int_locals_written_in, find_member_loop
 
 PU = 'parse.c'
 
 
 def run(P, rep, tier):
     u = P.unit(PU)
-    for f in ('declspec', 'struct_decl', 'union_decl', 'struct_members', 'struct_union_decl', 'primary'):
-        if f not in u.functions:
-            raise AnalysisBroken('anchor function %s vanished from %s' % (f, PU))
     rep.explanation = (
-        'Finite tables are decided completely: declspec is executed by Engine I on every keyword sequence on the frontier of '
-        'C11 6.7.2p2 (all orders of the 31 valid multisets; every valid multiset plus one more keyword), the 13 ty_* objects and '
-        'the 6 type constructors are read from type.c and compared with psABI Fig. 3.1. The layout loops of struct_decl/union_decl '
-        'are summarised by Engine I as a step function (havocked running state, one generic member per member class, generic exit) '
-        'and the summary is compared with the psABI step function on a grid of layout states that covers two periods of every '
-        'alignment involved. Not decided: the fold of the step function over member sequences (induction over the list is the '
-        'argument), declarators, initialisers.')
+        'Finite tables are decided completely: declspec is executed by Engine I on concrete token lists for every keyword sequence on the '
+        'frontier of C11 6.7.2p2 (all orders of the 31 valid multisets; every valid multiset plus one more keyword), the 13 ty_* objects and '
+        'the 6 type constructors are read from type.c and compared with psABI Fig. 3.1. The member loops of struct_decl/union_decl are '
+        'summarised by Engine I as a step function (havocked running state, one generic member per member class, generic exit state) and '
+        'the summary is compared, as a function, with the psABI/gcc step function on a grid of layout states that covers two periods of '
+        'every alignment involved, so an equivalent rewrite of a formula is not an alarm. attribute_list, the _Alignas specifier and the '
+        'three declaration sites are interpreted on concrete/abstract inputs and the alignment that reaches the object is compared with '
+        '"attribute else type". stddef.h is read through clang and compared with the types the compiler gives sizeof, pointer '
+        'difference and wide literals. Not decided: the fold of the step function over member sequences (the step + entry + exit '
+        'obligations are the induction argument), declarators, initialisers, offsetof (a macro).')
     rep.assumptions += [
-        'calloc succeeds and zero-fills', 'equal()/consume() compare a token with a keyword spelling (tokenize.c)',
-        'layout grid: running offset 0..287 bits, scalar sizes 1,2,4,8,16, aggregate sizes up to 48, alignments 1..16, every bit-field width 1..8*size',
-        'packed + explicit member _Alignas is outside the oracle (GNU extension interplay)',
+        'calloc succeeds and zero-fills', 'equal()/consume()/skip() compare a token with a spelling (tokenize.c)',
+        'layout grid: running offset 0..287 bits, bit-field types of 1,2,4,8 bytes with every width 1..8*size, member sizes 0..48, alignments 1..16; values never overflow int',
+        'a struct_union_decl() result has size 0 (complete) or -1 (forward declaration) and alignment >= 1',
+        'packed + explicit member _Alignas is outside the oracle (GNU extension interplay); packed layouts are compared with gcc, the rest with psABI 3.1.2',
     ]
     import traceback
     for rule, f in (('R08.3', r083), ('R08.2', r082), ('R08.1', r081), ('R08.4', r084), ('R08.4', r084_alignas_specifier), ('R08.5', r085)):
@@ -171,6 +171,8 @@ def describe(cls, packed, e, union):
 
 def layout_fn(P, u, rep, fname, union):
     fn = u.fn(fname)
+    if fn is None:
+        raise AnalysisBroken('anchor function %s vanished from %s' % (fname, PU))
     where = '%s:%d' % (PU, fn.line)
     loops = find_member_loop(fn)
     if len(loops) != 1:
@@ -570,6 +572,8 @@ def _local_enums(fn):
 def r081(P, u, rep):
     rep.rule('R08.1', 'declspec accepts exactly the type-specifier multisets of C11 6.7.2p2, in every order, with their LP64 type; one keyword more than a valid multiset is diagnosed', floor=150)
     fn = u.fn('declspec')
+    if fn is None:
+        raise AnalysisBroken('anchor function declspec vanished from %s' % PU)
     where = '%s:%d' % (PU, fn.line)
     tw = TokenWorld(P, u)
     typenames = tw.typenames
@@ -813,6 +817,8 @@ def r083_attributes(P, u, rep):
 def r084_alignas_specifier(P, u, rep):
     """declspec: `_Alignas(type)` records the type's alignment, `_Alignas(n)` the constant"""
     fn = u.fn('declspec')
+    if fn is None:
+        raise AnalysisBroken('anchor function declspec vanished from %s' % PU)
     where = '%s:%d' % (PU, fn.line)
     tw = TokenWorld(P, u)
 
@@ -920,6 +926,8 @@ def r084(P, u, rep):
              'object or member it declares (else the type\'s alignment) at every declaration site', floor=12)
     tg = type_globals(P)
     prim = u.fn('primary')
+    if prim is None:
+        raise AnalysisBroken('anchor function primary vanished from %s' % PU)
     arms = {}
     for n in prim.walk():
         if n.kind != 'IfStmt' or n.enclosing('IfStmt') is not None:
@@ -1238,9 +1246,10 @@ def r085(P, u, rep):
         return (t, line), (a[1], a[2], a[3] or 0)
 
     # --- size_t
-    nu = u.fn('new_ulong')
     sz_ty = None
     prim = u.fn('primary')
+    if prim is None:
+        raise AnalysisBroken('anchor function primary vanished from %s' % PU)
     size_ctor = None
     for c in prim.calls():
         a = c.args()
